@@ -24,7 +24,7 @@ from engine.chx import Assume, Violation, reach
 
 PROPERTY = 'C17'
 LEVEL = 'model_checking'
-REACH_POINTS = ['program', 'program.exception', 'thread.observed']
+REACH_POINTS = ['program.scope_object_used', 'program', 'program.exception', 'thread.observed']
 
 P = pg_perm.CodePermission
 
@@ -126,6 +126,10 @@ def _expected(name, rule, default, stack):
   raise AssertionError(rule)
 
 
+# public in-block API of the objects scopes hand out (`with pg.timeit() as t: ... t.end()`)
+SCOPE_OBJECT_USES = {'timeit': lambda t: (t.end(), t.status())}
+
+
 def _observe_all():
   return {r[0]: r[3]() for r in ROWS}
 
@@ -161,7 +165,7 @@ def _pick(seq, i):
   raise Assume()
 
 
-def h_program(params, m2, m3, a1, a2, a3, depth, raise_at_end, catch_level, check_threads):
+def h_program(params, m2, m3, a1, a2, a3, depth, raise_at_end, catch_level, check_threads, use=0):
   m1 = params['m1']
   d = _pick([1, 2, 3], depth - 1)
   if d > params.get('max_depth', 3):
@@ -178,6 +182,8 @@ def h_program(params, m2, m3, a1, a2, a3, depth, raise_at_end, catch_level, chec
     row = ROWS[mi]
     prog.append((row, _pick(row[2], ai)))
   cl = _pick(list(range(d + 1)), catch_level)       # 0: caught outside all scopes; k: caught inside level k
+  # which level (if any) uses the object its scope handed out; only asked for programs that contain such a scope
+  use_k = _pick(list(range(d + 1)), use) if any(r[0] in SCOPE_OBJECT_USES for r, _ in prog) else 0
   reach('program')
   initial = _observe_all()
   initial_keys = _store_keys()
@@ -216,9 +222,14 @@ def h_program(params, m2, m3, a1, a2, a3, depth, raise_at_end, catch_level, chec
         raise Boom()
       return
     row, arg = prog[k]
-    with row[1](arg):
+    with row[1](arg) as scope_obj:
       stack2 = stack + [(row[0], arg)]
       check(stack2, f'after_enter:{k}')
+      if use_k and k == use_k - 1 and row[0] in SCOPE_OBJECT_USES:
+        # the block uses the public API of the object its scope handed out (however the block ends includes this)
+        reach('program.scope_object_used')
+        SCOPE_OBJECT_USES[row[0]](scope_obj)
+        check(stack2, f'after_use:{k}')
       if cl == k + 1:
         try:
           run(k + 1, stack2)
@@ -252,7 +263,7 @@ def h_program(params, m2, m3, a1, a2, a3, depth, raise_at_end, catch_level, chec
 
 
 _ARGS = [('m2', 'int'), ('m3', 'int'), ('a1', 'int'), ('a2', 'int'), ('a3', 'int'), ('depth', 'int'), ('raise_at_end', 'bool'),
-         ('catch_level', 'int'), ('check_threads', 'bool')]
+         ('catch_level', 'int'), ('check_threads', 'bool'), ('use', 'int')]
 
 
 def shards(tier, seed):
